@@ -143,11 +143,13 @@ func (s *Server) handleConn(ctx context.Context, conn net.Conn) error {
 			return nil
 		case *pgproto3.Query:
 			start := time.Now()
-			trimmed := trimQuery(m.String)
-			key := cacheKey(trimmed)
+			trimmed := trimQuery(m.String) // truncated text, for the audit log only
+			// Authorize (and cache by) exactly the text that is forwarded.
+			full := strings.TrimSpace(m.String)
+			key := cacheKey(full)
 			decision, hit := cache.get(key)
 			if !hit {
-				allowed, reason, topics, showTopics := authorizeQuery(acl, trimmed)
+				allowed, reason, topics, showTopics := authorizeQuery(acl, full)
 				decision = cacheDecision{
 					created:    time.Now(),
 					allowed:    allowed,
